@@ -143,6 +143,7 @@ def ill_spec(draw, klass=None):
     spec["custom_px"] = draw(st.sampled_from([1.01, 0.97, 1.0, 0.0, 0.0]))
     spec["custom_q"] = draw(st.sampled_from([5.0, -3.0, 1.0]))
     spec["custom_flat"] = draw(st.booleans())
+    spec["rate_kind"] = draw(st.sampled_from(["coupon", "coupon", "cost_long", "cost_short"]))
     return spec
 
 
@@ -256,9 +257,16 @@ def _case_illformed(ctx, spec):
         kids = [getattr(bt.core, kind)(t) for t in sorted(pr)]
         root = bt.core.FixedIncomeStrategy("root", children=kids)
         coup = {t: [0.01] * len(ds) for t in pr}
-        if klass == "nan_coupon_open_position":
+        kw = {}
+        rk = spec.get("rate_kind", "coupon") if klass == "nan_coupon_open_position" else None
+        if rk == "coupon":
             coup[bad][k] = None
-        root.setup(data, coupons=interp.mk_frame(ds, coup))
+        elif rk in ("cost_long", "cost_short"):
+            # the carry of a date is the coupon less the holding cost of the held side: a missing cost is a missing carry
+            cost = {t: [0.001] * len(ds) for t in pr}
+            cost[bad][k] = None
+            kw[rk] = interp.mk_frame(ds, cost)
+        root.setup(data, coupons=interp.mk_frame(ds, coup), **kw)
         spath = "root"
     else:
         root, spath = _tree(bt, spec)
@@ -328,7 +336,8 @@ def _case_illformed(ctx, spec):
         must_raise(lambda: (root.update(idx[k]), root.value), "update to %s with a position in %s whose price is missing" % (idx[k], bad))
         return {"nontrivial": True, "labels": labs}
     if klass == "nan_coupon_open_position":
-        root.transact(100.0, child=bad)
+        labs.append("missing_" + spec.get("rate_kind", "coupon"))
+        root.transact(-100.0 if spec.get("rate_kind") == "cost_short" else 100.0, child=bad)
         root.update(idx[0])
         for d in idx[1:k]:
             root.update(d)
